@@ -386,6 +386,21 @@ theorem scalarNumL_safe {n : Nat} {db : Db} {f : BinOp} {q : Nat} {x k : Rat} : 
   unfold scalarNumL; sauto
 macro_rules | `(tactic| sleaf) => `(tactic| exact scalarNumL_safe)
 
+theorem powLoop_safe {n : Nat} {db : Db} {q0 : Nat} {x0 : Rat} (k : Nat) (q : Nat) (x : Rat) :
+    Safe n (powLoop db q0 x0 k q x) (fun _ => True) := by
+  induction k generalizing q x with
+  | zero => unfold powLoop; sauto
+  | succ k ih =>
+    unfold powLoop
+    apply Safe.bind opFunc_safe; intro r _
+    apply Safe.bind Safe.liftE; intro z _
+    exact ih _ _
+macro_rules | `(tactic| sleaf) => `(tactic| exact powLoop_safe _ _ _)
+
+theorem scalarPow_safe {n : Nat} {db : Db} {i : Nat} {e : Int} : Safe n (scalarPow db i e) (fun _ => True) := by
+  unfold scalarPow; sauto
+macro_rules | `(tactic| sleaf) => `(tactic| exact scalarPow_safe)
+
 theorem elemLoop_safe {n : Nat} {db : Db} {f : BinOp} {q1 q2 : Nat} (ps : List (Rat × Rat)) (q : Nat) :
     Safe n (elemLoop db f q1 q2 ps q) (fun _ => True) := by
   induction ps generalizing q with
